@@ -260,7 +260,11 @@ def execute(arg):
         spec = case[side]
         if spec["start"]:
             await asyncio.sleep(spec["start"])
-        await inv.read_device_info()
+        try:
+            await inv.read_device_info()
+            st["info"] = "ok"
+        except Exception as e:  # noqa - the outcome is compared solo vs interleaved like every other result
+            st["info"] = "exc:" + type(e).__name__ + ":" + str(e)[:60]
         for op in spec["ops"]:
             c = op["c"]
             try:
@@ -310,7 +314,7 @@ def execute(arg):
     for s, st in sides.items():
         frames = [C.strip_tcp_tx(q["raw"], st["tr"]).hex() for q in st["dev"].requests]
         final = [snap(v) if r[0] == "ok" else None for v, r in zip(st["values"], st["results"])]
-        out[s] = {"frames": frames, "results": st["results"], "final": final}
+        out[s] = {"frames": frames, "results": [("info", st.get("info"))] + st["results"], "final": [None] + final}
     return out
 
 
@@ -340,14 +344,14 @@ def run_case(case):
         for label, run in (("solo", solo), ("interleaved", inter)):
             for j, (r, fin) in enumerate(zip(run["results"], run["final"])):
                 if r[0] == "ok" and fin != r[1]:
-                    op = case[side]["ops"][j]["c"]
+                    op = case[side]["ops"][j - 1]["c"]
                     cls = "eco-group" if "EcoMode" in r[1] or "PeakShaving" in r[1] or "Schedule" in r[1] else "value"
                     add(f"C20:alias:{cls}:{label}", f"{kinds}: value returned by call {j} ({op}) was {r[1][:160]} at return "
                         f"time and is {str(fin)[:160]} at the end of the {label} run")
                     break
         if solo["results"] != inter["results"]:
             j = next(i for i, (x, y) in enumerate(zip(solo["results"] + [None], inter["results"] + [None])) if x != y)
-            op = case[side]["ops"][j]["c"] if j < len(case[side]["ops"]) else "?"
+            op = "read_device_info" if j == 0 else (case[side]["ops"][j - 1]["c"] if j - 1 < len(case[side]["ops"]) else "?")
             add(f"C20:result-diff:{op.split(':')[0]}", f"{kinds}: result of call {j} ({op}) differs: solo "
                 f"{str(solo['results'][j] if j < len(solo['results']) else None)[:140]} vs interleaved "
                 f"{str(inter['results'][j] if j < len(inter['results']) else None)[:140]}")
